@@ -27,6 +27,9 @@
 #include <unistd.h>             /* getpid() */
 
 #include "signals.h"
+#ifdef KJN_LBZIP2_VERIF
+#include "verif_hooks.h"
+#endif
 
 
 #define EX_FAIL 1
@@ -260,8 +263,14 @@ halt(void)
 void
 xraise(int sig)
 {
+#ifdef KJN_LBZIP2_VERIF
+  vh_note_raise(sig);
+#endif
   if (kill(pid, sig) != 0)
     abort();
+#ifdef KJN_LBZIP2_VERIF
+  vh_after_raise(sig);
+#endif
 }
 
 
